@@ -940,6 +940,7 @@ def run(ctx):
     stream_paths(ctx, reqs, pending)
     stream_dtype(ctx, reqs, pending)
     stream_spellings(ctx, reqs, pending)
+    stream_entrypoints(ctx, reqs, pending)
     settle(ctx, reqs, pending)
 
 
@@ -959,13 +960,13 @@ def replay(ctx, case):
             res = call(im.get_frame, f + 1, **kw)
             check_call(sub, case, P, f, flags, opts, res, 'get_frame', hist=False)
     streams = {'lut': stream_lut, 'palette': stream_palette, 'selwin': stream_selectors, 'sellut': stream_selectors,
-               'selrw': stream_selectors, 'place': stream_placement, 'obj': stream_objects, 'paths': stream_paths, 'dtype': stream_dtype, 'spell': stream_spellings}
+               'selrw': stream_selectors, 'place': stream_placement, 'obj': stream_objects, 'paths': stream_paths, 'dtype': stream_dtype, 'spell': stream_spellings, 'entry': stream_entrypoints}
     fn = streams.get(case.get('stream'))
     if fn is not None:
         # these streams are cheap: re-run the stream and keep the failures of the same case
         fn(sub, [], [])
         keys = [k for k in ('stream', 'idx', 'n', 'sel', 'kind', 'places', 'frame', 'slope', 'intercept', 'out', 'in', 'dtype', 'dtype_spelling',
-                            'range_spelling', 'frame_number') if k in case]
+                            'range_spelling', 'frame_number', 'round', 'family', 'source', 'selector', 'entry', 'voi', 'rw', 'slice') if k in case]
         sub.failures = [f for f in sub.failures if all(f['case'].get(k) == case.get(k) for k in keys)]
     return sub.failures[:3] or None
 
@@ -1990,3 +1991,210 @@ def stream_spellings(ctx, reqs, pending):
                         check_call(ctx, case, P, int(fnum) - 1, flags, opts, res, 'spelling/' + kname, hist=False)
                         ctx.case(nontrivial_key=('spell', kname, dname, dsp, rsp, type(fnum).__name__), spelling=f'{dsp}/{rsp}')
     ctx.exhaustive.append('option spellings: 6 pipeline kinds x 2 dtypes x 3 dtype spellings x 5 range spellings x int / numpy int frame number')
+
+
+# ---------------------------------------------------------------------------- every selector through every entry point
+def _frame_index_map(ds_factory, reader):
+    """which frame every pixel of an assembled read (volume slice / total pixel matrix) comes from: the same image
+    with frame f filled with the constant f + 1, read without any transform"""
+    ds = ds_factory()
+    n, rows, cols = int(ds.NumberOfFrames), int(ds.Rows), int(ds.Columns)
+    dt = np.uint16 if int(ds.BitsAllocated) == 16 else np.uint8
+    data = np.stack([np.full((rows, cols), f + 1, dtype=dt) for f in range(n)]).tobytes()
+    ds.PixelData = data + (b'\x00' if len(data) % 2 else b'')
+    return reader(ds)
+
+
+def stream_entrypoints(ctx, reqs, pending):
+    """(a) every selector kind x every read entry point on images whose frames carry their OWN multi-alternative
+    parameters; (b) series whose instances differ in exactly one parameter family; each slice / tile / frame is
+    compared with the expectation of the frame it comes from."""
+    import highdicom as hd
+    from gen.pixeltransforms import add_transforms
+    from gen.sources import ct_series, enhanced_multiframe, slide_image
+    rounds = ctx.n(6, 60)
+    no_tr = dict(apply_real_world_transform=False, apply_modality_transform=False, apply_presentation_lut=False)
+    for rnd in range(rounds):
+        r = ctx.rng('entry', rnd)
+        nr = ctx.np_rng('entry', rnd)
+        # ---------------- (a) per-frame multi-alternative parameters
+        for family in ('rwvm', 'window', 'voilut'):
+            for source in ('enhanced', 'slide'):
+                n_alt = r.choice([2, 3])
+                if source == 'enhanced':
+                    n = r.choice([2, 3, 4])
+                    rows, cols = r.randint(1, 3), r.randint(2, 4)
+                    seed = int(nr.integers(0, 2 ** 31))
+
+                    def factory(n=n, rows=rows, cols=cols, seed=seed):
+                        return enhanced_multiframe(n, rows, cols, rng=np.random.default_rng(seed))
+                else:
+                    tr_, tc_ = r.randint(1, 3), r.randint(2, 4)
+                    R, C = tr_ * r.randint(1, 2) + r.randint(0, 1), tc_ * r.randint(1, 2) + r.randint(0, 1)
+                    seed = int(nr.integers(0, 2 ** 31))
+
+                    def factory(R=R, C=C, tr_=tr_, tc_=tc_, seed=seed):
+                        return slide_image(R, C, tr_, tc_, bits=16, rng=np.random.default_rng(seed))[0]
+                ds = factory()
+                n = int(ds.NumberOfFrames)
+                stored = np.frombuffer(ds.PixelData, dtype=np.uint16)[:n * ds.Rows * ds.Columns].reshape(n, ds.Rows, ds.Columns)
+                stored = (stored % 200).astype(np.uint16)          # inside every mapped range / table
+                data = stored.tobytes()
+                ds.PixelData = data + (b'\x00' if len(data) % 2 else b'')
+                labels = ['A', 'B', 'C'][:n_alt]
+                units = r.sample(UNITS, n_alt)
+                expl = r.sample(EXPL, n_alt)
+                T = {}
+                if family == 'rwvm':
+                    T['rwvm'] = [{'place': 'perframe', 'vals': [[{'label': labels[k], 'unit': units[k], 'first': 0, 'last': 255,
+                                                                 'slope': fs(r.choice(SLOPES)), 'intercept': fs(Fraction(r.randint(-90, 90)))}
+                                                                for k in range(n_alt)] for _ in range(n)]}]
+                    selectors = [('rwvm_selector', s_) for s_ in [1, -1, n_alt - 1, -n_alt, labels[-1], labels[1], units[-1], units[0]]]
+                    flags = {'rw': None, 'mod': None, 'voi': False, 'pal': None, 'icc': None, 'pres': True}
+                elif family == 'window':
+                    fn = r.choice([None, 'LINEAR', 'LINEAR_EXACT'])
+                    vals = []
+                    for _ in range(n):
+                        cs, ws, _u = gen_window(r, Fraction(1), Fraction(0), n_alt, fn)
+                        vals.append({'c': cs, 'w': ws, 'fn': fn, 'expl': expl})
+                    T['window'] = [{'place': 'perframe', 'vals': vals}]
+                    selectors = [('voi_selector', s_) for s_ in [1, -1, n_alt - 1, -n_alt, expl[-1], expl[0]]]
+                    flags = {'rw': None, 'mod': None, 'voi': True, 'pal': None, 'icc': None, 'pres': True}
+                else:
+                    T['voi_luts'] = [dict(gen_lut(r, 8, (0, 60), pow2_range=True), expl=expl[k]) for k in range(n_alt)]
+                    T['rescale'] = [{'place': 'perframe', 'vals': [[fs(Fraction(1)), fs(Fraction(r.randint(-20, 20)))] for _ in range(n)]}]
+                    selectors = [('voi_selector', s_) for s_ in [1, -1, n_alt - 1, -n_alt, expl[-1], expl[0]]]
+                    flags = {'rw': None, 'mod': None, 'voi': True, 'pal': None, 'icc': None, 'pres': True}
+                add_transforms(ds, T, n)
+                P = _stored_P(ds, stored, T)
+                st = call(hd.Image.from_dataset, ds)
+                if st[0] != 'ok':
+                    ctx.note(f'entry-point image not built: {st[2]}')
+                    continue
+                im = st[1]
+                if source == 'enhanced':
+                    assembled = [('get_volume', lambda **kw: im.get_volume(**kw).array)]
+                    fmap = call(_frame_index_map, factory, lambda d: hd.Image.from_dataset(d).get_volume(**no_tr).array)
+                else:
+                    assembled = [('get_total_pixel_matrix', lambda **kw: im.get_total_pixel_matrix(**kw))]
+                    fmap = call(_frame_index_map, factory, lambda d: hd.Image.from_dataset(d).get_total_pixel_matrix(**no_tr))
+                raw = call(assembled[0][1], **no_tr)
+                for key, sel in selectors:
+                    opts = {key: sel}
+                    kw = dict(flag_kwargs(flags), **opt_kwargs(opts))
+                    case = {'stream': 'entry', 'round': rnd, 'family': family, 'source': source, 'selector': sel}
+                    refs = [ref_frame(P, f, flags, opts) for f in range(n)]
+                    # get_frame / get_frames
+                    singles = [call(im.get_frame, f + 1, **kw) for f in range(n)]
+                    for f in range(n):
+                        check_call(ctx, dict(case, entry='get_frame', frame=f), P, f, flags, opts, singles[f], 'entry/get_frame', hist=False)
+                    batch = call(im.get_frames, **kw)
+                    for f in range(n):
+                        one = ('ok', batch[1][f]) if batch[0] == 'ok' else batch
+                        if batch[0] == 'ok' or refs[f][0] == 'ok':
+                            check_call(ctx, dict(case, entry='get_frames', frame=f), P, f, flags, opts, one, 'entry/get_frames', hist=False)
+                    ctx.case(nontrivial_key=('entry', family, source, str(sel), rnd), entry_point='get_frame(s)', entry_family=family,
+                             entry_selector=type(sel).__name__ if not isinstance(sel, list) else 'unit')
+                    # assembled reads: every pixel against the expectation of the frame it comes from
+                    if fmap[0] != 'ok' or raw[0] != 'ok':
+                        ctx.note(f'entry-point frame map not available: {str(fmap[1:])[:120]}')
+                        continue
+                    name, reader = assembled[0]
+                    res = call(reader, **kw)
+                    ctx.case(nontrivial_key=('entry', name, family, str(sel), rnd), entry_point=name, entry_family=family)
+                    if any(rf[0] != 'ok' for rf in refs):
+                        if res[0] == 'ok' and all(rf[0] != 'ok' for rf in refs):
+                            ctx.fail(dict(case, entry=name), {'why': 'assembled read succeeded although every frame is refused'}, site='entry/' + name)
+                        continue
+                    if res[0] != 'ok':
+                        ctx.fail(dict(case, entry=name), {'why': 'assembled read refused although every frame reads', 'error': res[2]}, site='entry/' + name)
+                        continue
+                    got = np.asarray(res[1], dtype=float)
+                    fm = np.asarray(fmap[1]).astype(int)
+                    rawv = np.asarray(raw[1]).astype(int)
+                    bad = None
+                    for pos in np.ndindex(fm.shape):
+                        f = fm[pos] - 1
+                        if f < 0:
+                            continue            # padding outside every tile
+                        # expectation of that pixel: the frame's own pipeline on the stored value at this place
+                        Pf = dict(P, frames=[[[int(rawv[pos])]]], T={k: ([dict(e, place='image', vals=[e['vals'][f]]) if e['place'] == 'perframe' else e
+                                                                         for e in v] if isinstance(v, list) and v and isinstance(v[0], dict) and 'place' in v[0]
+                                                                     else v) for k, v in T.items()})
+                        rf = ref_frame(Pf, 0, flags, opts)
+                        if rf[0] != 'ok':
+                            continue
+                        if compare_values(np.array([[got[pos]]]), rf[1], rf[2], 'float64') is not None:
+                            bad = {'position': list(pos), 'frame': int(f), 'got': float(got[pos]), 'want': str(rf[1][0])}
+                            break
+                    if bad:
+                        ctx.fail(dict(case, entry=name), dict(bad, why='a pixel of the assembled read does not follow the pipeline of its own frame'),
+                                 site='entry/' + name)
+        # ---------------- a selection that leaves out a frame whose own parameters cannot be used
+        Pq = {'bits': 8, 'signed': False, 'bits_stored': 8, 'photometric': 'MONOCHROME2',
+              'frames': [[[r.randint(0, 9) for _ in range(3)]] for _ in range(3)],
+              'T': {'rescale': [{'place': 'perframe', 'vals': [['3/2', '0'], ['1', '0'], [str(r.choice([1, 2, 3])), '0']]}],
+                    'voi_luts': [dict(gen_lut(r, 8, (0, 0), pow2_range=True))]}}
+        st = call(build, Pq)
+        if st[0] == 'ok':
+            imq = st[1][0]
+            fl_ = {'rw': None, 'mod': None, 'voi': True, 'pal': None, 'icc': None, 'pres': True}
+            for selq in ([3, 2], [2], [3, 3, 2]):
+                singles = [call(imq.get_frame, k, **flag_kwargs(fl_)) for k in selq]
+                batch = call(imq.get_frames, selq, **flag_kwargs(fl_))
+                ctx.case(nontrivial_key=('entry', 'selection', tuple(selq), rnd), entry_point='get_frames(selection)')
+                caseq = {'stream': 'entry', 'round': rnd, 'entry': 'get_frames', 'family': 'selection', 'selector': selq}
+                for k, sres in zip(selq, singles):
+                    check_call(ctx, dict(caseq, frame=k - 1), Pq, k - 1, fl_, {}, sres, 'entry/get_frame', hist=False)
+                if all(x[0] == 'ok' for x in singles) and (batch[0] != 'ok' or not np.array_equal(batch[1], np.stack([x[1] for x in singles]))):
+                    ctx.fail(caseq, {'why': 'get_frames of a selection differs from / is refused unlike the single reads', 'res': str(batch[1:])[:200]},
+                             site='entry/get_frames-selection')
+        # ---------------- (b) series differing in exactly one parameter family
+        for family in ('window', 'rescale', 'presentation', 'modlut', 'rwvm', 'nothing'):
+            n = r.choice([3, 4])
+            series = ct_series(n, r.randint(1, 3), r.randint(2, 4), rng=nr)
+            fn = r.choice([None, 'LINEAR', 'LINEAR_EXACT'])
+            m0, b0 = r.choice([Fraction(1), Fraction(2), Fraction(1, 2)]), Fraction(r.randint(-20, 20))
+            cs0, ws0, _u = gen_window(r, m0, b0, 1, fn)
+            Ps = []
+            for i, d in enumerate(series):
+                stored = (np.frombuffer(d.PixelData, dtype=np.uint16)[:d.Rows * d.Columns].reshape(d.Rows, d.Columns) % 200).astype(np.uint16)
+                data = stored.tobytes()
+                d.PixelData = data + (b'\x00' if len(data) % 2 else b'')
+                T = {'rescale': [{'place': 'image', 'vals': [[fs(m0), fs(b0)]]}],
+                     'window': [{'place': 'image', 'vals': [{'c': cs0, 'w': ws0, 'fn': fn}]}]}
+                if family == 'window' and i > 0:
+                    cs, ws, _u = gen_window(r, m0, b0, 1, fn)
+                    T['window'] = [{'place': 'image', 'vals': [{'c': cs, 'w': ws, 'fn': fn}]}]
+                elif family == 'rescale' and i > 0:
+                    T['rescale'] = [{'place': 'image', 'vals': [[fs(m0), fs(b0 + i)]]}]
+                elif family == 'presentation' and i % 2:
+                    T['pres_shape'] = 'INVERSE'
+                elif family == 'modlut':
+                    del T['rescale']
+                    T['mod_lut'] = {'first': 0, 'bits': 8, 'data': [(7 * k + 13 * i) % 256 for k in range(200)]}
+                    T['window'] = [{'place': 'image', 'vals': [{'c': ['128'], 'w': ['256'], 'fn': 'LINEAR_EXACT'}]}]
+                elif family == 'rwvm':
+                    T['rwvm'] = [{'place': 'image', 'vals': [[{'label': 'A', 'unit': UNITS[0], 'first': 0, 'last': 255,
+                                                              'slope': fs(Fraction(i + 1)), 'intercept': '0'}]]}]
+                add_transforms(d, T, 1)
+                Ps.append(_stored_P(d, [stored], T))
+            raw = call(hd.image.get_volume_from_series, series, **no_tr)
+            if raw[0] != 'ok':
+                ctx.note(f'entry-point series not readable: {raw[2]}')
+                continue
+            order = []
+            for k in range(n):
+                hit = [j for j, P in enumerate(Ps) if np.array_equal(raw[1].array[k], np.asarray(P['frames'][0]))]
+                order.append(hit[0] if len(hit) == 1 else None)
+            for voi in (False, None, True):
+                for rw in ((None, False) if family == 'rwvm' else (None,)):
+                    flags = {'rw': rw, 'mod': None, 'voi': voi, 'pal': None, 'icc': None, 'pres': True}
+                    res = call(hd.image.get_volume_from_series, series, **flag_kwargs(flags))
+                    ctx.case(nontrivial_key=('entry', 'series', family, str(voi), str(rw), rnd), entry_point='get_volume_from_series', series_family=family)
+                    for k in range(n):
+                        if order[k] is None:
+                            continue
+                        one = ('ok', res[1].array[k]) if res[0] == 'ok' else res
+                        check_call(ctx, {'stream': 'entry', 'round': rnd, 'entry': 'get_volume_from_series', 'family': family, 'voi': voi, 'rw': rw,
+                                         'slice': k, 'instance': order[k]}, Ps[order[k]], 0, flags, {}, one, 'entry/get_volume_from_series/' + family, hist=False)
